@@ -41,7 +41,8 @@ EXPECTED_PROBES = ["write_pandas", "write_dask", "read_pandas", "read_dask", "re
                    "sliced_or_concat_backing", "ge_11_partitions",
                    "dataset_written_again_at_same_path", "dataset_written_from_a_frame_read_back",
                    "earlier_lazy_read_computed_again",
-                   "read_dask_list_of_pandas_file_and_dask_dataset"]
+                   "read_dask_list_of_pandas_file_and_dask_dataset",
+                   "sibling_file_same_fields_other_index_kind"]
 
 
 def cases(tier, base_seed):
@@ -101,6 +102,18 @@ def cases(tier, base_seed):
             else:
                 steps.append({"op": "read_dask", "how": "mixed", "ds": ["D0", "D1", "D2"],
                               "glob_first": rng.random() < 0.5, "columns": proj()})
+        if spec["index"].get("name") and spec["index"]["name"] not in spec["order"] \
+                and rng.random() < 0.3:
+            # a sibling file with the SAME stored fields but another index kind: the index
+            # written as the last ordinary column under a default index; the two files are
+            # read one after the other with the same projection, in both orders
+            steps.append({"op": "write_sibling", "compression": comp()})
+            for _ in range(2):
+                pr = proj() or [rng.choice(names)]
+                first = rng.random() < 0.5
+                for which in (("P", "S") if first else ("S", "P")):
+                    steps.append({"op": "read_pandas" if which == "P" else "read_sibling",
+                                  "ds": which, "columns": list(pr), "twice": False})
         if rng.random() < 0.35:
             # second phase: datasets written AGAIN at the same paths (other rows, other
             # partition count) after they were read, a dataset written from a frame that
@@ -210,7 +223,8 @@ def _drive_steps(case, root, fs, probes, sig):
     os.makedirs(os.path.join(root, "dk2"))
     paths = {"P": os.path.join(root, "pd", "P.parquet"),
              "D0": os.path.join(root, "dk", "ds_0"), "D1": os.path.join(root, "dk", "ds_1"),
-             "D2": os.path.join(root, "dk2", "extra"), "D3": os.path.join(root, "dk2", "copy")}
+             "D2": os.path.join(root, "dk2", "extra"), "D3": os.path.join(root, "dk2", "copy"),
+             "S": os.path.join(root, "pd", "S.parquet")}
     lazy = []        # (lazy frame, rows, columns, version of its dataset when it was read)
     version = {}
     for step in case["steps"]:
@@ -251,6 +265,27 @@ def _drive_steps(case, root, fs, probes, sig):
                                           compression=step["compression"], overwrite=True), sig)
             model[step["ds"]] = list(model[step["src"]])
             version[step["ds"]] = version.get(step["ds"], 0) + 1
+        elif op == "write_sibling":
+            if "P" not in model or model["P"] != list(range(spec["n"])):
+                continue
+            iname = spec["index"]["name"]
+            spec_s = copy.deepcopy(spec)
+            spec_s["extra"][iname] = list(spec["index"]["values"])
+            spec_s["order"] = list(spec["order"]) + [iname]
+            spec_s["index"] = {"kind": "default"}
+            gdf = e3.build_store_frame(spec_s, None)      # RangeIndex: no index column stored
+            _guard("to_parquet (sibling)", lambda: to_parquet(
+                gdf, paths["S"], filesystem=fs, compression=step["compression"]), sig)
+            model["S"] = spec_s
+            probes["sibling_file_same_fields_other_index_kind"] = 1
+        elif op == "read_sibling":
+            if "S" not in model:
+                continue
+            cols = step["columns"]
+            got = _guard("read_parquet (sibling)", lambda: read_parquet(
+                paths["S"], filesystem=fs, columns=cols), sig)
+            _compare(got, model["S"], list(range(spec["n"])), cols, "read_parquet[sibling]",
+                     GeoDataFrame, sig)
         elif op == "read_pandas":
             if "P" not in model:
                 continue
